@@ -177,6 +177,36 @@ Lemma prec_table_complete :
   forallb (fun o => existsb (fun p => String.eqb (fst p) (spec_binop o) && Nat.eqb (snd p) (binop_prec o)) gen_binop_prec) all_binops = true.
 Proof. vm_compute. intros H; first [discriminate H | reflexivity]. Qed.
 
+(* ---------- (T) the operand requirements and the levels of _precedence read from expressions.py are the grammar's ---------- *)
+(* every `precedence=` argument of the _yield / _join calls of the Expr*.iterate methods (the model's iterate is defined over
+   these regenerated constants), paired with the level the Python grammar gives that operand position *)
+Definition slot_table : list (nat * nat) :=
+  [(rq_Attribute_values, P_ATOM); (rq_Call_function, P_ATOM); (rq_Subscript_left, P_ATOM); (rq_NamedExpr_target, P_ATOM);
+   (rq_BinOp_pow_left, P_AWAIT); (rq_BinOp_pow_right, P_FACTOR); (rq_BoolOp_values_above_own, 1); (rq_UnaryOp_value_above_own, 0);
+   (rq_Call_sole_genexp, P_NONE); (rq_Call_arguments, P_TEST);
+   (rq_Compare_left, P_BOR); (rq_Compare_comparators, P_BOR);
+   (rq_Comprehension_target, P_BOR); (rq_Comprehension_iterable, P_OR); (rq_Comprehension_conditions, P_OR);
+   (rq_Dict_unpacked, P_BOR); (rq_Dict_key, P_TEST); (rq_Dict_value, P_TEST);
+   (rq_DictComp_key, P_TEST); (rq_DictComp_value, P_TEST); (rq_DictComp_generators, P_NONE);
+   (rq_Formatted_value, P_OR); (rq_Formatted_spec_values, P_NONE); (rq_Formatted_spec, P_NONE);
+   (rq_GeneratorExp_element, P_TEST); (rq_GeneratorExp_generators, P_NONE);
+   (rq_IfExp_body, P_OR); (rq_IfExp_test, P_OR); (rq_IfExp_orelse, P_TEST);
+   (rq_JoinedStr_values, P_NONE); (rq_Keyword_value, P_TEST); (rq_VarPositional_value, P_BOR); (rq_VarKeyword_value, P_TEST);
+   (rq_Lambda_default, P_TEST); (rq_Lambda_body, P_TEST); (rq_List_elements, P_TEST);
+   (rq_ListComp_element, P_TEST); (rq_ListComp_generators, P_NONE); (rq_NamedExpr_value, P_TEST);
+   (rq_Set_elements, P_TEST); (rq_SetComp_element, P_TEST); (rq_SetComp_generators, P_NONE);
+   (rq_Slice_lower, P_TEST); (rq_Slice_upper, P_TEST); (rq_Slice_step, P_TEST); (rq_Subscript_slice, P_TEST);
+   (rq_Tuple_elements, P_TEST); (rq_Yield_value, P_TEST); (rq_YieldFrom_value, P_TEST);
+   (* _precedence *)
+   (pr_default, P_ATOM); (pr_binop_default, P_ATOM); (pr_BoolOp_if, P_OR); (pr_BoolOp_else, P_AND); (pr_UnaryOp_if, P_NOT);
+   (pr_UnaryOp_else, P_FACTOR); (pr_Compare, P_CMP); (pr_IfExp, P_TEST); (pr_Lambda, P_TEST); (pr_Yield, P_YIELD); (pr_YieldFrom, P_YIELD)].
+Lemma slot_requirements_match :
+  forallb (fun p => Nat.eqb (fst p) (snd p)) slot_table = true /\
+  pr_BoolOp_if_operator = spec_boolop L_Or /\ pr_UnaryOp_if_operator = spec_unop U_Not /\
+  (forall o, gprec (GBinOp (GStr "") (spec_binop o) (GStr "")) = binop_prec o) /\
+  (forall o vs, gprec (GBoolOp (spec_boolop o) vs) = boolop_prec o) /\ (forall o v, gprec (GUnaryOp (spec_unop o) v) = unop_prec o).
+Proof. repeat split; try reflexivity; intros o; try intros ?; destruct o; reflexivity. Qed.
+
 (* ---------- a sequence of builds: what is stored for an expression does not depend on what was built before ---------- *)
 Definition build_seq (fx : fixes) (l : list (nenv * bctx * pyexpr)) : list (option gexpr) :=
   map (fun x => build fx (fst (fst x)) (snd (fst x)) (snd x)) l.
